@@ -183,8 +183,20 @@ def _points(ctx, cfg):
     ctx.input("r", r)
     ctx.env.update(t=[c[i, 0] for i in range(M)], M=M)
     pts = SArr(c.copy(), np.float64)
+    scale = None
+    if cfg.get("scale") == "sym":
+        # time is not rescaled (dummy factor 1, as documented for the segmentation variant)
+        sc = [z3.Real(f"scale{d}") for d in range(D)]
+        ctx.add(And([x > 0 for x in sc]))
+        scale = [1] + [SReal(x) for x in sc]
+        ctx.input("scale", [1] + sc)
+        for i in range(M):
+            for d in range(D):
+                c[i, 1 + d] = c[i, 1 + d] * sc[d]  # the oracle below works on the scaled positions
+    else:
+        ctx.input("scale", None)
     try:
-        G = cg.compute_graph_from_points_list(pts, SReal(r))
+        G = cg.compute_graph_from_points_list(pts, SReal(r), scale=scale)
     except Unsupported:
         raise
     except Exception as e:
@@ -230,8 +242,11 @@ def points_replay(f):
     inp = f["inputs"]
     pts = np.array([[_f(v) for v in row] for row in inp["points"]], dtype=float)
     r = _f(inp["r"])
+    scale = None if inp.get("scale") is None else [_f(x) for x in inp["scale"]]
     try:
-        G = compute_graph_from_points_list(pts, r)
+        G = compute_graph_from_points_list(pts, r, scale=scale)
+        if scale is not None:
+            pts = pts * np.array(scale)
     except Exception as e:
         return f["obligation"] == "C18.builds_without_error", f"points={pts.tolist()} raised {type(e).__name__}: {e}"
     M = len(pts)
